@@ -191,6 +191,11 @@ class WireJudge(Judge):
                         continue
                     dev = vec.get('d' + key)
                     fid = None
+                    if dev is not None and dev['k'] == 'unspec':
+                        # past the recorded departure (an all-optional struct filled in) the document takes a form the
+                        # documents leave open (e.g. a boolean where a number is declared): not judged
+                        self.skip('unspecified_after_known_deviation')
+                        continue
                     if dev is not None and dev['k'] == 'ok':
                         try:
                             if self.binder.from_py(root, out[1]) == dev['v']:
